@@ -8,6 +8,7 @@ import (
 	"context"
 	"errors"
 	"fmt"
+	"os"
 	"sort"
 	"strings"
 	"sync"
@@ -19,6 +20,9 @@ import (
 
 	"verifsim/core"
 )
+
+// Debug logs every operation (replay diagnosis only).
+var Debug = os.Getenv("VERIF_DEBUG") == "1"
 
 var ErrInjected = errors.New("simdisk: injected I/O error")
 
@@ -137,6 +141,9 @@ func (d *Disk) pre(class, op, key string) error {
 		d.writes++
 	}
 	d.mu.Unlock()
+	if Debug && d.Sim != nil {
+		d.Sim.Log.Addf("diskop %s %s %s", d.Name, op, key)
+	}
 	if park && d.Sim != nil {
 		d.Sim.Yield("disk:" + d.Name + ":" + op + ":" + key)
 	}
